@@ -14,6 +14,7 @@ def handlers : List (List String → Option String) := [
   Doc.handleDoc,
   Legacy.handleLeg,
   EncB.handleEncP,
+  EncCache.handleCache,
   L2T.handleL2T,
   C08.handleC08,
   World.handleHist,
